@@ -1,4 +1,4 @@
-/* KNOWN, NOT FIXED (keys gr-comp:session, gr-comp:rewrite[-rejected]): compressed (non-chunked) images.
+/* (repair round: buffered whole-element rewrite; were known findings gr-comp:*) compressed (non-chunked) images.
  * usage: comp <coder: 1 RLE, 3 skphuff, 4 deflate>.  exit 0 only if all of the following hold:
  *  (c1) in the creating session a read after a partial first write returns the written pixels, and a second
  *       partial write is kept;   (c2) after reopen a partial rewrite succeeds and changes only its pixels. */
